@@ -152,7 +152,8 @@ class FakeServer:
         else:
             try:
                 after = rfc6902(before, payload)
-            except PatchTestFailed:
+            except (PatchTestFailed, KeyError, IndexError, TypeError, ValueError):
+                # a failed `test`, or an op that does not apply to the current document: rejected as a whole
                 rec['result'] = 422
                 raise errors.APIUnprocessableEntityError(None, status=422, headers={})
         if self.status_subresource:
@@ -196,7 +197,8 @@ def base_body(spec=None, **meta):
 class World:
     """The real per-object pipeline over a FakeServer. One operator incarnation = one `memories`."""
 
-    def __init__(self, obj, *, status_subresource=False, lifecycle=None, settings=None, loop=None):
+    def __init__(self, obj, *, status_subresource=False, lifecycle=None, settings=None, loop=None, tmode='concrete'):
+        self.tmode = tmode      # 'concrete': virtual wall clock with real datetimes; 'symbolic': affine datetime shim
         self.loop = loop or SymLoop()
         self.resource = make_resource(status_subresource)
         self.server = FakeServer(obj, status_subresource, clock=lambda: self.loop._now)
@@ -219,9 +221,14 @@ class World:
         api.patch = self.server.patch
         from kopf._core.actions import progression as _progression
         orig_dt = _progression.datetime
+        orig_iso = _progression.iso8601
         if orig_dt.__name__ == 'datetime' and getattr(orig_dt, '__file__', None):   # the real module: go virtual
-            from vkopf import vclock
-            _progression.datetime = vclock.module
+            if self.tmode == 'symbolic':
+                from vkopf import shimdt
+                _progression.datetime, _progression.iso8601 = shimdt.datetime_module, shimdt.iso8601_module
+            else:
+                from vkopf import vclock
+                _progression.datetime = vclock.module
         try:
             return await processing.process_resource_event(
                 lifecycle=self.lifecycle, indexers=self.indexers, registry=self.registry,
@@ -230,7 +237,7 @@ class World:
                 event_queue=asyncio.Queue(), no_throttling=kw.pop('no_throttling', True), **kw)
         finally:
             api.patch = orig
-            _progression.datetime = orig_dt
+            _progression.datetime, _progression.iso8601 = orig_dt, orig_iso
 
     def run(self, coro, **kw):
         return self.loop.run(coro, **kw)
